@@ -127,7 +127,10 @@ def main(argv=None):
     # Own the environment: hash seed and private cache directory for every worker
     cache_dir = tempfile.mkdtemp(prefix=f'vf_{prop}_')
     os.environ['XDG_CACHE_HOME'] = cache_dir
-    os.environ['PYTHONHASHSEED'] = str(seed % 1000)
+    # The hash seed is part of the explored configuration where a property quantifies over it (C05, C18: seeds
+    # enumerated explicitly in sub-processes); everywhere else it is pinned so that a run -- and the signatures of the
+    # known findings -- are reproducible for every VERIF_SEED (VERIF_SEED never selects which cases are run).
+    os.environ['PYTHONHASHSEED'] = os.environ.get('VERIF_HASHSEED', '0')
     os.environ['ADSG_CORE_VERIF'] = '1'
     os.environ.setdefault('NUMBA_CACHE_DIR', os.path.join(cache_dir, 'numba'))
     os.environ['PYTHONPATH'] = VERIF + os.pathsep + os.environ.get('PYTHONPATH', '')
